@@ -56,6 +56,7 @@ class Engine:
         self.obligations = []
         self.model = None
         self.W = 64
+        self.resources = []
 
     def _mk_solver(self):
         self.solver = z3.Solver()
@@ -67,6 +68,7 @@ class Engine:
         self.pos = 0
         self.pc = []
         self.obligations = []
+        self.resources = []   # (what, term): quantities whose size drives memory/time (unbounded shift amounts)
 
     # ---- solver frames
     def _sync(self, f):
@@ -210,6 +212,7 @@ class ForkEngine(Engine):
         self.pos = 0
         self.W = 64
         self.nforks = 0
+        self.resources = []
 
     def assume(self, f):
         if isinstance(f, bool):
@@ -496,7 +499,7 @@ class SInt(int):
         need_fit(o)
         if ENG.branch(term(o) < 0):
             raise ValueError("negative shift count")
-        ENG.shift_hook(term(o)) if getattr(ENG, "shift_hook", None) else None
+        ENG.resources.append(("shift amount", term(o)))
         return SInt._shl(term(s), term(o), s, o)
 
     def __rlshift__(s, o):
@@ -505,7 +508,7 @@ class SInt(int):
         need_fit(s)
         if ENG.branch(term(s) < 0):
             raise ValueError("negative shift count")
-        ENG.shift_hook(term(s)) if getattr(ENG, "shift_hook", None) else None
+        ENG.resources.append(("shift amount", term(s)))
         return SInt._shl(term(o), term(s), o, s)
 
     @staticmethod
@@ -842,9 +845,10 @@ class _SignChar(str):
 
 
 class Path:
-    __slots__ = ("pc", "obligations", "kind", "result", "decisions")
+    __slots__ = ("pc", "obligations", "kind", "result", "decisions", "resources")
 
-    def __init__(self, pc, obligations, kind, result, decisions):
+    def __init__(self, pc, obligations, kind, result, decisions, resources=()):
+        self.resources = list(resources)
         self.pc = pc
         self.obligations = obligations
         self.kind = kind  # "ok" | "exc" | "unknown" | "unsupported" | "diverged"
@@ -901,7 +905,7 @@ class Exploration:
                 if k in ("bf", "cf"):
                     continue
                 stack.append(eng.decisions[:i] + [(k, v, False, dg)])
-            yield Path(list(eng.pc), list(eng.obligations), res[0], res[1], list(eng.decisions))
+            yield Path(list(eng.pc), list(eng.obligations), res[0], res[1], list(eng.decisions), eng.resources)
         self.complete = True
 
 
@@ -941,7 +945,7 @@ def explore_fork(fn, finish, timeout_ms=30000, width=64, max_seconds=600):
                 res = ("unsupported", str(e))
             except Exception as e:  # noqa: BLE001
                 res = ("exc", e)
-            out = finish(Path(list(eng.pc), list(eng.obligations), res[0], res[1], []))
+            out = finish(Path(list(eng.pc), list(eng.obligations), res[0], res[1], [], eng.resources))
             data = pickle.dumps(out)
             os.write(w, len(data).to_bytes(4, "little") + data)
         except BaseException as e:  # noqa: BLE001
